@@ -67,11 +67,15 @@ Obl(name, ok) == bad' = IF ok THEN "" ELSE name
 
 TSync(e) ==
   LET r == e.n
-      exp == SyncExpect(r, e.base, e.prev, e.ents) IN
-  /\ IF e.res.out \in {"durable", "already"}
+      exp == SyncExpect(r, e.base, e.prev, e.ents)
+      \* an Unknown outcome (cancelled context, lost reply) may or may not have been written:
+      \* the recorded post-state tells which; if it was written it must obey the contract
+      wrote == e.res.out = "unknown" /\ (e.st.leo # Len(log[r]) \/ e.st.cm # committed[r]) IN
+  /\ IF e.res.out \in {"durable", "already"} \/ wrote
        THEN /\ log' = [log EXCEPT ![r] = IF exp = "durable" THEN log[r] \o e.ents ELSE log[r]]
             /\ committed' = [committed EXCEPT ![r] = Max2(@, e.cm)]
-            /\ Obl("C02_SyncAppliedAgainstContract", exp = e.res.out /\ StOK(r, e.st))
+            /\ Obl("C02_SyncAppliedAgainstContract",
+                   (IF wrote THEN exp \in {"durable", "already"} ELSE exp = e.res.out) /\ StOK(r, e.st))
        ELSE /\ UNCHANGED <<log, committed>>
             /\ Obl("C02_RejectedSyncChangedState", StOK(r, e.st))
   /\ UNCHANGED <<up, own, nextAuth, acked, usedCmds>> /\ Keep
